@@ -136,7 +136,10 @@ func (d *dtInfo) genVal(vset, buf, i int) interface{} {
 		return d.fromInt(int64((i*3+buf)%5 - 2))
 	case 4: // floats: a reference value and its neighbours at distance 2^-20 (exact in float32) - tolerances
 		if d.kind == "float" {
-			f := []float64{1, 1 + 1.0/(1<<20), 1 - 1.0/(1<<20), 2, 1, 0.5, 1 + 1.0/(1<<10), 3}[(i+buf)%8]
+			// … followed by a triple whose product is not representable and cancels against the third value:
+			// (1+2^-30)(1-2^-30) - 1 is -2^-60 when rounded once (fused) and 0 when the product is rounded first
+			f := []float64{1, 1 + 1.0/(1<<20), 1 - 1.0/(1<<20), 2, 1, 0.5, 1 + 1.0/(1<<10), 3,
+				1 + 1.0/(1<<30), 1 - 1.0/(1<<30), -1, 0.1, 0.3, -0.03}[(i+buf)%14]
 			if d.bits == 32 {
 				return float32(f)
 			}
